@@ -54,7 +54,11 @@ fn plan_for(prop: &str, tier: &str) -> Vec<(Arc<dyn Engine>, u64)> {
         "C01" => add(Arc::new(e2::E2), 3_000, 100_000),
         "C02" | "C03" => add(Arc::new(e2::E2), 3_000, 100_000),
         "C04" => add(Arc::new(e3::pairs::Pairs), 40_000, 2_000_000),
-        "C06" => add(Arc::new(e3::kv::Kv), 60_000, 3_000_000),
+        "C06" => {
+            add(Arc::new(e3::kv::Kv), 60_000, 3_000_000);
+            // the real server loop has to run the collection (owner side)
+            add(Arc::new(e2::E2), 2_000, 80_000);
+        }
         "C07" => add(Arc::new(e3::budget::Budget), 20_000, 600_000),
         "C08" => {
             add(Arc::new(e3::wire::Wire), 20_000, 800_000);
